@@ -610,9 +610,6 @@ static Harvest harvest(Parser& parser, const std::shared_ptr<Python>& python) {
     return h;
 }
 
-// ---- comparison ------------------------------------------------------------------------------------------------------
-struct Mismatch { std::string key, kw; double got, want; };
-
 int main(int argc, char** argv) {
     vh::Args args = vh::parse_args(argc, argv);
     vh::Reporter rep(args, "C09");
@@ -628,7 +625,6 @@ int main(int argc, char** argv) {
     for (auto& k : hv.accepted) rep.cover("harvest_accepted_" + k.substr(0, 2), k);
     for (auto& k : hv.rejected) rep.cover("harvest_rejected", k);
     for (auto& k : hv.noValue) rep.cover("harvest_accepted_but_never_evaluated", k);
-    (void)perturb;
 
     rep.run_cases([&](long idx, Rng& rng) {
         using namespace model;
@@ -812,6 +808,21 @@ int main(int argc, char** argv) {
                 if (R.undecided.count(kv.first)) { rep.count("history_values_not_decided"); continue; }
                 rep.cover("compared_keyword_" + kw.substr(0, 2), kw);
                 compare("value:" + kw, kv.first, kv.second, it->second, ctx);
+                // the typed accessors must serve the same number as the flat key
+                auto mi = modelled.find(kv.first);
+                if (mi != modelled.end() && mi->second.L != ref::FIELD) {
+                    const auto& ki = mi->second;
+                    const bool isW = ki.L == ref::WELL;
+                    const std::string& ent = isW ? m.wells[ki.e].name : m.groups[ki.e].name;
+                    const bool has = isW ? st.has_well_var(ent, kw) : st.has_group_var(ent, kw);
+                    const double v = !has ? NAN : (isW ? st.get_well_var(ent, kw) : st.get_group_var(ent, kw));
+                    ++comparisons;
+                    if (!(v == kv.second) && !firstBad.count("accessor:" + kw)) {
+                        std::ostringstream o; o.precision(17);
+                        o << (isW ? "get_well_var(" : "get_group_var(") << ent << ", " << kw << ") = " << v << " but get(" << kv.first << ") = " << kv.second << " (" << ctx << ")";
+                        firstBad["accessor:" + kw] = o.str();
+                    }
+                }
             }
             for (auto& key : mustHave) if (!st.has(key)) {
                 const std::string kw = key.substr(0, key.find(':'));
@@ -857,7 +868,12 @@ int main(int argc, char** argv) {
         rep.cover("features", "shut_well_seen", sawShut);
         rep.cover("features", "efficiency_factor_ne_1", anyFactor);
         rep.cover("features", "history_undecided_keys", R.undecided.empty() ? 0 : 1);
-        if (idx < 2) rep.sample(text, 3, 2500);
+        if (idx < 2) {
+            std::ostringstream o;
+            o << "units " << m.u().name << ", " << m.wells.size() << " wells, " << m.groups.size() << " groups, SUMMARY section requests the "
+              << hv.accepted.size() << " harvested keywords; schedule section and evaluations:\n" << text.substr(text.find("SCHEDULE\n")) << "--- evaluations (well=status[o,w,g|ro,rw,rg|dissolved gas,vaporised oil], SI, negative = production) ---\n" << trace.str();
+            rep.sample(o.str(), 3, 3500);
+        }
         for (auto& fb : firstBad)
             rep.violation(fb.first, fb.second, "first mismatch: " + fb.second + "\n--- deck ---\n" + text + "\n--- evaluations ---\n" + trace.str());
     });
